@@ -285,6 +285,10 @@ func init() {
 			// pace below the ping interval: the window fills only slowly
 			// once the peer is gone
 			{Scenario: "kadead/N=20/ka=2s,1s/k=25/pace=1500ms/kaside=c", Budgets: bs(B(0, 1)), Split: 1},
+			// a live peer on a lossy link: keepalive may close the
+			// connection when an answer is lost, but never while packets of
+			// the peer keep arriving inside the pong timeout
+			{Scenario: "kalive/lossy/ka=2s,1s/R=300ms/idle=20s", Budgets: bs(B(0, 2)), Split: 1},
 			// (the long idle runs last: they are the ones a loaded machine
 			// cuts short)
 			{Scenario: "kalive/lat=250ms", Budgets: bs(B(1, 0)), Split: 1},
@@ -297,6 +301,8 @@ func init() {
 			{Scenario: "kalive/lat=250ms", Budgets: bs(B(2, 0)), Filter: "keepalive", Split: 2},
 			{Scenario: "kalive/lat=499ms", Budgets: bs(B(2, 0)), Filter: "keepalive", Split: 2},
 			{Scenario: "kalive/ka=5s,3s/lat=1499ms/idle=100s/H=4s/R=4s", Budgets: bs(B(1, 0)), Split: 1},
+			{Scenario: "kalive/lossy/ka=2s,1s/R=300ms/idle=20s", Budgets: bs(B(1, 1), B(0, 3)), Filter: "keepalive", Split: 2},
+			{Scenario: "kalive/lossy/ka=5s,3s/R=1s/idle=40s/lat=100ms", Budgets: bs(B(0, 2)), Split: 1},
 			{Scenario: "kadead/N=2", Budgets: bs(B(1, 1)), Split: 2},
 			{Scenario: "kadead/N=2/ka=7s,3s", Budgets: bs(B(0, 1)), Split: 1},
 			{Scenario: "kadead/N=20/ka=2s,1s/k=25/pace=1500ms/kaside=c", Budgets: bs(B(1, 1)), Filter: "tickeronly", Split: 1},
